@@ -146,3 +146,120 @@ Example C01_lex_nonvacuous :
   lex [34; 195; 169] = LexErr ELeftover /\ lex [49; 101] = LexErr EFailure /\
   valid_utf8 [195] = false /\ valid_utf8 [237; 160; 128] = false /\ valid_utf8 [192; 128] = false.
 Proof. vm_compute. repeat split. Qed.
+
+(** * Bytes to outcome: the lexer model composed with the parser models (Model/LexParse.v, proofs in
+    Proofs/LexParseProofs.v)
+
+    [conv] is the harness's abstraction of the real lexer's tokens ([quilgen::tok_to_coq]) as a
+    Gallina function on the lexer model's tokens: reserved words become constructors, [i pi sin cos
+    sqrt exp cis] keep their identity, every other spelling / target / string / non-integral float is
+    interned ([conv_with intern] for ANY interning function; [conv tbl] numbers by first occurrence
+    like the harness).  [parse_bytes e bytes] = lex the bytes; a lex error makes the entry point
+    return an error; otherwise [run Repaired e] on the converted tokens.  The [CBytes] cases of the
+    C01 run check on real data that [conv] of the model's tokens IS the token list the harness
+    ships, and that the composed model has the outcome class of the real entry point. *)
+From QV Require Import Model.LexParse Proofs.LexParseProofs.
+
+(** For every byte list and every entry point the composed model never yields [Panic] ... *)
+Theorem C01_bytes_no_panic : forall (e : entry) (bytes : list N), parse_bytes e bytes <> OPanic.
+Proof. exact parse_bytes_no_panic. Qed.
+
+(** ... whatever the interning function ... *)
+Theorem C01_bytes_no_panic_any_interning :
+  forall (intern : ikey -> N) (e : entry) (bytes : list N), parse_bytes_with intern e bytes <> OPanic.
+Proof. exact parse_bytes_with_no_panic. Qed.
+
+(** ... and always ends with a verdict: value, error or "command not modelled"; never out of fuel. *)
+Theorem C01_bytes_verdict : forall (e : entry) (bytes : list N),
+  parse_bytes e bytes = OOk \/ parse_bytes e bytes = OErr \/ parse_bytes e bytes = OUnk.
+Proof. exact parse_bytes_verdict. Qed.
+
+(** [conv] is total by a fallback for reserved-word tokens whose spelling is in none of its
+    tables; no token the lexer model produces is in that case ([known]): the tables cover the
+    spelling lists [keyword_or_identifier] consults and the operator bytes. *)
+Theorem C01_conv_fallback_dead : forall (bytes : list N) (ts : list ltoken),
+  lex bytes = LexOk ts -> forallb known ts = true.
+Proof. exact lex_tokens_known. Qed.
+
+(** The DEF* commands.  [run_full] is [run] with DEFCAL, DEFCAL MEASURE, DEFCIRCUIT, DEFFRAME,
+    DEFWAVEFORM and DEFGATE parsed by the grammar of Model/PrintParse.v ([p_items]) instead of being
+    answered "not modelled": it never yields [Panic], never runs out of the fuel it gives itself
+    ("not modelled" remains only for a definition nested in the body of another definition), and it
+    extends [run] conservatively. *)
+Theorem C01_full_no_panic : forall (e : entry) (ts : list tok), run_full Repaired e ts <> OPanic.
+Proof. exact run_full_no_panic. Qed.
+
+Theorem C01_full_verdict : forall (e : entry) (ts : list tok),
+  run_full Repaired e ts = OOk \/ run_full Repaired e ts = OErr \/ run_full Repaired e ts = OUnk.
+Proof. exact run_full_verdict. Qed.
+
+Theorem C01_full_fuel_sufficient : forall (vr : variant) (e : entry) (ts : list tok),
+  run_full vr e ts <> OFuel.
+Proof. exact run_full_no_fuel. Qed.
+
+Theorem C01_full_conservative : forall (vr : variant) (e : entry) (ts : list tok),
+  run vr e ts <> OUnk -> run_full vr e ts = run vr e ts.
+Proof. exact run_full_conservative. Qed.
+
+(** From bytes, with the DEF* grammar. *)
+Theorem C01_bytes_full_no_panic : forall (e : entry) (bytes : list N),
+  parse_bytes_full e bytes <> OPanic.
+Proof. exact parse_bytes_full_no_panic. Qed.
+
+Theorem C01_bytes_full_verdict : forall (e : entry) (bytes : list N),
+  parse_bytes_full e bytes = OOk \/ parse_bytes_full e bytes = OErr \/ parse_bytes_full e bytes = OUnk.
+Proof. exact parse_bytes_full_verdict. Qed.
+
+(** The composition case verdict ([CBytes e bytes ots o], code 0): the real outcome [o] is a value
+    or an error; if the real lexer rejected the text so does the model and the entry point returned
+    an error, as [parse_bytes] says; if it produced tokens, the model lexes the bytes to [ms] with
+    [conv_toks ms] EQUAL to the token list the harness derived from the real tokens (so the parser
+    cases and the lexer cases talk about the same tokens), every float literal's [round_bits] is
+    accepted by C05's verified nearest-value checker, [parse_bytes] is "not modelled" or equals
+    [o], and [parse_bytes_full] agrees with [o] ([agree_full]: equal, or "not modelled", or on a
+    text containing DEFGATE the model accepts where the implementation's extra validation rejects). *)
+Theorem C01_bytes_checker_sound : forall (e : entry) (bytes : list N) (ots : option (list tok)) (o : outcome),
+  case_code2 Repaired (CBytes e bytes ots o) = 0%N ->
+  (o = OOk \/ o = OErr) /\
+  (ots = None -> (exists err, lex bytes = LexErr err) /\ o = OErr /\ parse_bytes e bytes = o) /\
+  (forall ts, ots = Some ts ->
+     exists ms, lex bytes = LexOk ms /\ conv_toks ms = ts /\
+       forallb float_ok ms = true /\
+       (parse_bytes e bytes = OUnk \/ parse_bytes e bytes = o) /\
+       agree_full (parse_bytes_full e bytes) o ts = true).
+Proof. intros e bytes ots o H. exact (bytes_code_sound e bytes ots o H). Qed.
+
+(** The wrapped cases ([CBase c], code 0): the original verdict of [c] is 0, and on a single case
+    where [run] answers "not modelled" the DEF*-aware [run_full] agrees with the real outcome. *)
+Theorem C01_full_checker_sound : forall (c : ParsePanic.case),
+  case_code2 Repaired (CBase c) = 0%N ->
+  ParsePanic.case_code Repaired c = 0%N /\
+  (forall e ts o, c = CSingle e (Some ts) o -> run Repaired e ts = OUnk ->
+     agree_full (run_full Repaired e ts) o ts = true).
+Proof.
+  intros c H. destruct (case_code2_base Repaired c H) as [H1 H2]. split; [exact H1|].
+  intros e ts o -> Hu. exact (full_single_code_sound Repaired e (Some ts) o H2 ts eq_refl Hu).
+Qed.
+
+(** Non-vacuity: [conv] on a text with a keyword, a command, the special identifiers in both
+    capitalisations, a repeated name, a float that is an integer and one that is not; a DEFCAL that
+    [parse_bytes] does not model and [parse_bytes_full] accepts; its body-less variant rejected; a
+    lex error. *)
+Example C01_bytes_nonvacuous :
+  (* "MOVE ro pi\nRX(PI*1.50) q q\nDELAY 0 2.0\nRZ(1.5) q" *)
+  let t1 := [77; 79; 86; 69; 32; 114; 111; 32; 112; 105; 10; 82; 88; 40; 80; 73; 42; 49; 46; 53; 48; 41; 32; 113; 32; 113; 10; 68; 69; 76; 65; 89; 32; 48; 32; 50; 46; 48; 10; 82; 90; 40; 49; 46; 53; 41; 32; 113] in
+  (match lex t1 with LexOk ms => conv_toks ms | _ => [] end) =
+    [TCmd CMove; TId (IdName 0); TId (IdRes RPi); TNewLine; TId (IdName 1); TLParen;
+     TId (IdResCase RPi); TOp OStar; TFloat (FLex 2); TRParen; TId (IdName 3); TId (IdName 3);
+     TNewLine; TCmd CDelay; TInt 0; TFloat (FInt 2); TNewLine; TId (IdName 4); TLParen;
+     TFloat (FLex 2); TRParen; TId (IdName 3)] /\
+  parse_bytes EProgram t1 = OOk /\
+  (* "DEFCAL X 0:\n\tX 0" *)
+  parse_bytes EProgram [68; 69; 70; 67; 65; 76; 32; 88; 32; 48; 58; 10; 9; 88; 32; 48] = OUnk /\
+  parse_bytes_full EProgram [68; 69; 70; 67; 65; 76; 32; 88; 32; 48; 58; 10; 9; 88; 32; 48] = OOk /\
+  (* "DEFCAL X 0:" *)
+  parse_bytes_full EProgram [68; 69; 70; 67; 65; 76; 32; 88; 32; 48; 58] = OErr /\
+  (* an unterminated string *)
+  parse_bytes EProgram [34; 97; 98; 99] = OErr /\
+  round_bits 15 (-1)%Z = 4609434218613702656%N.
+Proof. vm_compute. repeat split. Qed.
